@@ -50,6 +50,10 @@ pub struct Case {
     /// bit 1: the sources are given as the pattern 's/*' with --glob (every child of s is a source of its own)
     #[serde(default)]
     pub opts: u8,
+    /// 0: the xcp binary; 1-3: a libxcp client (probe) with the record / channel / noop updater and
+    /// Config{dereference: true} - "exits non-zero" then means copy() returns an error
+    #[serde(default)]
+    pub via_lib: u8,
 }
 
 pub fn strategy() -> BoxedStrategy<Case> {
@@ -63,8 +67,11 @@ pub fn strategy() -> BoxedStrategy<Case> {
         2 => any::<bool>().prop_map(Extra::CrossDirChain),
         1 => (prop_oneof![Just(40u16), Just(150u16), Just(300u16)], any::<bool>()).prop_map(|(d, l)| Extra::Deep(d, l)),
     ];
-    (prop::collection::vec(gent(NAMES.len(), true), 0..12), prop::collection::vec(extra, 0..3), common_flags(), any::<bool>(), prop::bool::weighted(0.15), prop::bool::weighted(0.6), prop_oneof![5 => Just(0u8), 2 => Just(1u8), 2 => Just(2u8), 1 => Just(3u8)])
-        .prop_map(|(tree, extras, flags, dest_exists, top_link, clean, opts)| Case { tree, extras, flags, dest_exists: dest_exists || opts & 2 != 0, top_link, clean, opts })
+    (prop::collection::vec(gent(NAMES.len(), true), 0..12), prop::collection::vec(extra, 0..3), common_flags(), any::<bool>(), prop::bool::weighted(0.15), prop::bool::weighted(0.6), prop_oneof![5 => Just(0u8), 2 => Just(1u8), 2 => Just(2u8), 1 => Just(3u8)], prop_oneof![5 => Just(0u8), 1 => 1u8..4])
+        .prop_map(|(tree, extras, flags, dest_exists, top_link, clean, opts, via_lib)| {
+            let opts = if via_lib != 0 { 0 } else { opts };
+            Case { tree, extras, flags, dest_exists: dest_exists || opts & 2 != 0, top_link, clean, opts, via_lib }
+        })
         .boxed()
 }
 
@@ -204,10 +211,37 @@ pub fn judge(c: &Case, rec: &mut Rec) -> Verdict {
         Err(e) => return Verdict::Inconclusive(format!("snapshot: {e}")),
     };
     let plan = model::plan(&pre, &root, &inv);
-    let out = run_plain(&RunSpec::xcp(inv.argv(), &sb.root, &sb.out));
+    let updater = ["", "record", "channel", "noop"][c.via_lib as usize % 4];
+    let out = if updater.is_empty() {
+        run_plain(&RunSpec::xcp(inv.argv(), &sb.root, &sb.out))
+    } else {
+        let cfg = json!({"driver": inv.driver(), "sources": inv.sources.iter().map(|s| String::from_utf8_lossy(s).to_string()).collect::<Vec<_>>(), "dest": "d", "workers": c.flags.1, "block_size": c.flags.2.unwrap_or(1 << 20),
+            "updater": updater, "dereference": true, "drain_timeout_ms": 15000});
+        let mut spec = RunSpec::xcp(vec![b"copy".to_vec()], &sb.root, &sb.out);
+        spec.bin = std::path::PathBuf::from(PROBE_BIN);
+        spec.stdin_data = Some(serde_json::to_vec(&cfg).unwrap());
+        spec.timeout = std::time::Duration::from_secs(150);
+        run_plain(&spec)
+    };
     rec.eval(1);
     if out.timed_out {
         return Verdict::Inconclusive("watchdog".into());
+    }
+    // the verdict of the run: exit status of xcp, or what copy() returned to the library client
+    let run_ok = if updater.is_empty() {
+        out.ok()
+    } else {
+        let first = out.stdout.split(|b| *b == b'\n').next().unwrap_or(b"");
+        match serde_json::from_slice::<Value>(first) {
+            Ok(v) => match (v.get("ok").and_then(|x| x.as_bool()), v.get("returned").and_then(|x| x.as_bool())) {
+                (Some(ok), Some(true)) => ok,
+                _ => return Verdict::Inconclusive(format!("probe: {}", String::from_utf8_lossy(first).chars().take(200).collect::<String>())),
+            },
+            Err(e) => return Verdict::Inconclusive(format!("probe output: {e}")),
+        }
+    };
+    if !updater.is_empty() {
+        rec.class(format!("library|{}|{}|plan={}|ok={}", updater, inv.driver(), match &plan { Plan::MustFail(_) => "mustfail", Plan::Copy(_) => "copy", _ => "other" }, run_ok));
     }
     let post = match snapshot(&sb.root) {
         Ok(s) => s,
@@ -237,9 +271,9 @@ pub fn judge(c: &Case, rec: &mut Rec) -> Verdict {
     match &plan {
         Plan::MustFail(why) => {
             let k = why.split(' ').next().unwrap_or("").to_string();
-            rec.class(format!("mustfail|{}|{}|exit={}", k, driver, if out.ok() { "0" } else { "!0" }));
+            rec.class(format!("mustfail|{}|{}|exit={}", k, driver, if run_ok { "0" } else { "!0" }));
             rec.nontrivial(case_hash(c));
-            if out.ok() {
+            if run_ok {
                 return Verdict::faild(
                     format!("C13|{}|bad-link-skipped|{}", driver, k),
                     format!("-L with an unresolvable link ({}) but exit 0", why),
@@ -249,9 +283,9 @@ pub fn judge(c: &Case, rec: &mut Rec) -> Verdict {
             Verdict::Pass
         }
         Plan::Copy(mapped) => {
-            let key = format!("copy|{}|dirlinks={}|{}|{}|top_link={}|exit={}", driver, std::cmp::min(n_dirlinks, 3), chain_class, if leaves { "leaves-source" } else { "inside" }, c.top_link, if out.ok() { "0" } else { "!0" });
+            let key = format!("copy|{}|dirlinks={}|{}|{}|top_link={}|exit={}", driver, std::cmp::min(n_dirlinks, 3), chain_class, if leaves { "leaves-source" } else { "inside" }, c.top_link, if run_ok { "0" } else { "!0" });
             let new = rec.class(key);
-            if !out.ok() {
+            if !run_ok {
                 rec.count("exit_nonzero", 1);
                 return Verdict::Pass;
             }
@@ -385,10 +419,10 @@ impl Check for C13 {
         "C13"
     }
     fn rule(&self) -> String {
-        "proptest-generated source trees with symlinks to files, to directories with nested content, chains of 1,2,3,10,39,40 and 41 links (41 exceeds the kernel limit), relative and absolute targets, targets outside the source, dangling links, 2-cycles, self loops, links to an ancestor directory, directories reached through a link that themselves contain links, relative chains crossing directories with a same-named decoy, chains of 40/150/300 nested directories inside the source or behind a link; optionally the source argument itself is a link; both drivers, copied with -r -L, optionally plus --gitignore (no ignore file anywhere) and/or with the sources given as the pattern 's/*' under --glob (every child of s, dangling links included, is then a source of its own; only when all those names are UTF-8). Sub-check 'long': a link whose target resolves to an absolute path just below or above PATH_MAX (14-16 nested 250-byte directories below a base directory padded by 1-250 bytes; everything reachable through relative paths): the run may fail when the path cannot be resolved, must succeed when every path is below PATH_MAX, and exit 0 => no symlink in the destination and the link replaced by a regular file with the target's bytes. Oracle: if any link below the source cannot be resolved (dangling, cyclic, too long) => exit != 0; otherwise exit 0 => no symlink in the destination and the destination equals the model obtained by resolving every path (a link to a directory becomes a directory with the target's full contents), everything else untouched. Non-trivial: >=1 link to a directory, chain >= 2, or a link leaving the source, or a must-fail case; distinct by case hash.".into()
+        "proptest-generated source trees with symlinks to files, to directories with nested content, chains of 1,2,3,10,39,40 and 41 links (41 exceeds the kernel limit), relative and absolute targets, targets outside the source, dangling links, 2-cycles, self loops, links to an ancestor directory, directories reached through a link that themselves contain links, relative chains crossing directories with a same-named decoy, chains of 40/150/300 nested directories inside the source or behind a link; optionally the source argument itself is a link; both drivers, copied with -r -L by the xcp binary or (one case in six) by a libxcp client with the record / channel / noop updater, for which 'exits non-zero' means copy() returns an error; optionally plus --gitignore (no ignore file anywhere) and/or with the sources given as the pattern 's/*' under --glob (every child of s, dangling links included, is then a source of its own; only when all those names are UTF-8). Sub-check 'long': a link whose target resolves to an absolute path just below or above PATH_MAX (14-16 nested 250-byte directories below a base directory padded by 1-250 bytes; everything reachable through relative paths): the run may fail when the path cannot be resolved, must succeed when every path is below PATH_MAX, and exit 0 => no symlink in the destination and the link replaced by a regular file with the target's bytes. Oracle: if any link below the source cannot be resolved (dangling, cyclic, too long) => exit != 0; otherwise exit 0 => no symlink in the destination and the destination equals the model obtained by resolving every path (a link to a directory becomes a directory with the target's full contents), everything else untouched. Non-trivial: >=1 link to a directory, chain >= 2, or a link leaving the source, or a must-fail case; distinct by case hash.".into()
     }
     fn needs(&self) -> Needs {
-        Needs { xcp: true, probe: false, fallback: false }
+        Needs { xcp: true, probe: true, fallback: false }
     }
     fn run_shard(&self, ctx: &Ctx, rec: &mut Rec) {
         let total = match ctx.tier {
@@ -417,6 +451,6 @@ impl Check for C13 {
         }
     }
     fn required_classes(&self, _tier: Tier) -> Vec<String> {
-        ["mustfail|dangling", "mustfail|link", "mustfail|directory", "chain40", "dirlinks=1", "leaves-source", "top_link=true", "cross-directory-relative-chain", "deep=150|via_link=true", "deep=300|", "opts|gitignore=true|glob-children=false|plan=copy", "opts|gitignore=false|glob-children=true|plan=mustfail", "opts|gitignore=false|glob-children=true|plan=copy", "resolved-path-over-PATH_MAX", "resolved-path-under-PATH_MAX|exit=0"].iter().map(|s| s.to_string()).collect()
+        ["mustfail|dangling", "mustfail|link", "mustfail|directory", "chain40", "dirlinks=1", "leaves-source", "top_link=true", "cross-directory-relative-chain", "deep=150|via_link=true", "deep=300|", "opts|gitignore=true|glob-children=false|plan=copy", "opts|gitignore=false|glob-children=true|plan=mustfail", "opts|gitignore=false|glob-children=true|plan=copy", "resolved-path-over-PATH_MAX", "resolved-path-under-PATH_MAX|exit=0", "library|noop|parfile|plan=mustfail", "library|noop|parblock|plan=mustfail", "library|channel|", "library|record|"].iter().map(|s| s.to_string()).collect()
     }
 }
